@@ -157,6 +157,11 @@ class ExprBinModel(ExprModel):
         return ret        
 
     def is_signed(self):
+        if self.op in (BinExprType.Eq, BinExprType.Ge, BinExprType.Le,
+                       BinExprType.Gt, BinExprType.Lt, BinExprType.Ne):
+            # The 1-bit result of a comparison is a truth value: 
+            # 'true' is 1 in a wider context, not -1
+            return False
         return (self.lhs.is_signed() and self.rhs.is_signed())
     
     def width(self):
